@@ -439,6 +439,7 @@ def run(report, p):
             if "builtin:open" in tg:
                 r5.check(open_mode(p, c, r) == "rb", r, c, "the XML file is not opened in binary mode for parsing (the declared encoding must decide)")
 
+    include_rules(report, p, 'c12', ['R12.6'], 'the ignore patterns a manifest carries are recovered unchanged and in order by the reader (the spec it fills must not be pre-filled or de-duplicating)')
     include_rules(report, p, 'c16', ['R16.2'], 'a size of 0 is written (the attribute is emitted under `is not None`)')
     include_rules(report, p, 'c17', ['R17.1'], 'every record read is kept: the hash list appends each record and indexes it under its own path (and previous path) only')
     include_rules(report, p, 'c16', ['R16.5'], 'a hash date read from a manifest must keep its offset until it is written again')
